@@ -35,12 +35,12 @@ def run(tier, rep):
     quick = tier == "quick"
     rep.assumptions += ["TLC 1.8", "damage patterns are in the classes MC_Crc shows to be always detected"]
     bundle = de.real_bundle()
-    fe.mc(rep, "items", 3 if quick else 4, maxpay=1, damage=True, optset="OptCore" if quick else "OptAll", bundle=bundle, hraise=True)
+    fe.mc(rep, "items", 3 if quick else 6, maxpay=2, damage=True, optset="OptCore" if quick else "OptAll", bundle=bundle, hraise=True)
     rnd = rng("c05")
     pool = stream_corpus.payload_pool(bundle, "c05", 80)
     pool += stream_corpus.syncy_payloads(rnd, 40)
     tr = fe.Traces(rep)
-    n = 90 if quick else 600
+    n = 90 if quick else 1000
     for i in range(n):
         k = rnd.randint(2, 9)
         # every third stream repeats a few payloads verbatim (base stations do: 1005/1006/1033/1230)
